@@ -681,6 +681,9 @@ pub enum C14Mode {
     /// crash points over a destination that already holds an older complete file (rewritten in
     /// place): every image is rejected, or serves the old file, or serves the new file - never a mixture
     CrashOver,
+    /// the Python binding's writers fed by an iterable that raises after `fail_after` tuples
+    /// (None: never): what is at the path afterwards
+    PyWrite { fail_after: Option<usize> },
     /// faults x schedules: every operation index fails (once / from then on) under every schedule of
     /// the writer pipeline with at most one deviation (C11's explorer), plus the crash images of
     /// every distinct operation log those schedules produce
@@ -993,6 +996,10 @@ impl Check for C14 {
                     v.push(C14Case { bed, nchrom: 2, items: 1500, opts: o.clone(), mode: C14Mode::Sched, part: Some((p, 8)) });
                 }
             }
+            // the Python writers with a source that fails after 0 .. n tuples, and one that does not
+            for fail_after in (0..=6usize).map(Some).chain([None]) {
+                v.push(C14Case { bed, nchrom: 2, items: 3, opts: Opts::base(), mode: C14Mode::PyWrite { fail_after }, part: None });
+            }
             // refused inputs through the built converters (the output path afterwards)
             if bed {
                 for t in crate::clifam::refuse_tool_cases(quick) {
@@ -1157,6 +1164,55 @@ impl Check for C14 {
             }
             C14Mode::RefusedTool(t) => {
                 crate::clifam::c14_tool(t, out);
+            }
+            C14Mode::PyWrite { fail_after } => {
+                let wd = tempfile::tempdir().expect("tempdir");
+                let path = wd.path().join(if c.bed { "o.bb" } else { "o.bw" });
+                let chroms = json!({"chrA": 1000, "chrB": 1000});
+                let entries: Vec<serde_json::Value> = (0..6u32)
+                    .map(|i| {
+                        let ch = if i < 3 { "chrA" } else { "chrB" };
+                        let st = 10 * (i % 3);
+                        if c.bed { json!([ch, st, st + 7, format!("n{}", i)]) } else { json!([ch, st, st + 7, i as f64 + 0.5]) }
+                    })
+                    .collect();
+                let req = json!([{"op": "write_fail", "path": path.to_str().unwrap(), "chroms": chroms, "entries": entries, "fail_after": fail_after}]);
+                out.count("python_writer_runs", 1);
+                match crate::pyfam::py_run(wd.path(), &req) {
+                    Err(e) => out.fail("harness_panic", &[], e),
+                    Ok(res) => {
+                        let r = &res[0];
+                        if let Some(d) = r.get("died") {
+                            out.fail("python_writer_died", &tags, format!("{}", d));
+                            return;
+                        }
+                        let r = match r.get("ok") {
+                            Some(x) => x,
+                            None => {
+                                out.fail("python_writer_died", &tags, format!("{}", r));
+                                return;
+                            }
+                        };
+                        let opened = r["opened"].as_bool().unwrap_or(false);
+                        let total: u64 = ["chrA", "chrB"].iter().map(|c| r["counts"][*c].as_u64().unwrap_or(0)).sum();
+                        match fail_after {
+                            None => {
+                                if !opened || total != 6 {
+                                    out.fail("write_failed_without_fault", &tags, format!("python writer, no failure: opened {} with {} of 6 records ({})", opened, total, r));
+                                }
+                            }
+                            Some(k) => {
+                                out.count("python_writer_runs_with_a_failing_source", 1);
+                                // the source failed: whatever is at the path must not pass for a complete file
+                                if opened && total != 6 {
+                                    out.fail("failed_write_left_an_accepted_partial_file", &tags, format!("python writer, source raised after {} of 6 tuples: the destination opens and serves {} records ({})", k, total, r));
+                                } else if !opened {
+                                    out.count("python_writer_failures_leaving_a_rejected_file", 1);
+                                }
+                            }
+                        }
+                    }
+                }
             }
             C14Mode::CrashOver => {
                 // the older file: two more items per chromosome, so it is longer and serves other records
